@@ -1,121 +1,21 @@
 #!/venv/bin/python
-"""tools/benign_stress.py [mode] — run every claimed check on a behaviour-preserving rewrite of the WHOLE package held
-in memory (overlay; /repo is not touched) and report any new refutation / analysis error: a false alarm in waiting.
-modes:  unparse   every module re-emitted by ast.unparse (drops comments, changes quoting, parentheses, line numbers)
-        shift     a comment + blank lines inserted at the top of every module and before every top-level def/class
-        rename    every function-local variable that is only ever bound by plain assignment is renamed (x -> x_v)"""
-import ast
+"""tools/benign_stress.py [mode] [PROPERTY...] — run the claimed checks on a behaviour-preserving rewrite of the WHOLE package held
+in memory (see pennyverif/benign.py) and report any refutation that is not a known finding / analysis error."""
 import importlib
 import json
 import sys
 from pathlib import Path
 
 sys.path.insert(0, "/verif")
-from pennyverif import core  # noqa: E402
+from pennyverif import benign, core  # noqa: E402
 
 ROOT = Path("/repo")
 mode = sys.argv[1] if len(sys.argv) > 1 else "unparse"
-
-
-def shift(src):
-    out = ["# benign shift", "", ""]
-    for line in src.splitlines():
-        if line.startswith(("def ", "class ", "@")) :
-            out += ["", "# moved", ""] if not (out and out[-1].startswith("@")) else []
-        out.append(line)
-    return "\n".join(out) + "\n"
-
-
-class Renamer(ast.NodeTransformer):
-    """rename locals of each function that are bound only by simple assignment / for targets and never appear in
-    nested scopes, global/nonlocal statements or as keyword names"""
-
-    def visit_FunctionDef(self, node):
-        self.generic_visit(node)
-        params = {a.arg for a in node.args.posonlyargs + node.args.args + node.args.kwonlyargs}
-        if node.args.vararg:
-            params.add(node.args.vararg.arg)
-        if node.args.kwarg:
-            params.add(node.args.kwarg.arg)
-        nested_names = set()
-        blocked = set()
-        for n in ast.walk(node):
-            if n is not node and isinstance(n, (ast.FunctionDef, ast.AsyncFunctionDef, ast.Lambda, ast.ClassDef, ast.ListComp, ast.SetComp, ast.DictComp, ast.GeneratorExp)):
-                for x in ast.walk(n):
-                    if isinstance(x, ast.Name):
-                        nested_names.add(x.id)
-            if isinstance(n, (ast.Global, ast.Nonlocal)):
-                blocked |= set(n.names)
-            if isinstance(n, (ast.Import, ast.ImportFrom)):
-                blocked |= {(a.asname or a.name).split(".")[0] for a in n.names}
-            if isinstance(n, ast.ExceptHandler) and n.name:
-                blocked.add(n.name)
-            if isinstance(n, (ast.With, ast.AsyncWith)):
-                for it in n.items:
-                    if it.optional_vars is not None:
-                        blocked |= {x.id for x in ast.walk(it.optional_vars) if isinstance(x, ast.Name)}
-            if isinstance(n, ast.NamedExpr):
-                blocked.add(n.target.id)
-            if isinstance(n, ast.MatchAs) and n.name:
-                blocked.add(n.name)
-            if isinstance(n, (ast.MatchStar,)) and n.name:
-                blocked.add(n.name)
-        stores = {x.id for x in ast.walk(node) if isinstance(x, ast.Name) and isinstance(x.ctx, ast.Store)}
-        cand = {s for s in stores if s not in params and s not in nested_names and s not in blocked and not s.startswith("__") and s != "_"}
-        if "locals" in {x.id for x in ast.walk(node) if isinstance(x, ast.Name)} or "vars" in {x.id for x in ast.walk(node) if isinstance(x, ast.Name)}:
-            return node
-        m = {c: c + "_v" for c in cand}
-
-        class R(ast.NodeTransformer):
-            def visit_Name(self, n):
-                if n.id in m:
-                    return ast.copy_location(ast.Name(id=m[n.id], ctx=n.ctx), n)
-                return n
-
-            def visit_FunctionDef(self, n):
-                return n if n is not node else self.generic_visit(n)
-
-            visit_AsyncFunctionDef = visit_FunctionDef
-
-            def visit_Lambda(self, n):
-                return n
-
-            def visit_ClassDef(self, n):
-                return n
-        return R().visit(node)
-
-    visit_AsyncFunctionDef = visit_FunctionDef
-
-
-overlay = {}
-n = 0
-for p in sorted((ROOT / "pennylane").rglob("*.py")):
-    rel = str(p.relative_to(ROOT))
-    src = p.read_text()
-    try:
-        tree = ast.parse(src)
-    except SyntaxError:
-        continue
-    if mode == "unparse":
-        new = ast.unparse(tree) + "\n"
-    elif mode == "shift":
-        new = shift(src)
-    elif mode == "rename":
-        new = ast.unparse(ast.fix_missing_locations(Renamer().visit(tree))) + "\n"
-    else:
-        sys.exit("unknown mode")
-    try:
-        compile(new, rel, "exec")
-    except SyntaxError as e:
-        print("skip (rewrite does not compile)", rel, e)
-        continue
-    overlay[rel] = new
-    n += 1
-print(f"{mode}: {n} modules rewritten in memory")
+overlay, skipped = benign.build_overlay(ROOT, mode)
+print(f"{mode}: {len(overlay)} modules rewritten in memory, {len(skipped)} left as they are")
 claims = [c["property_id"] for c in json.load(open("/verif/MANIFEST.json"))["checks"]]
-only = sys.argv[2:] or claims
 bad = 0
-for pid in only:
+for pid in sys.argv[2:] or claims:
     mod = importlib.import_module(f"pennyverif.props.{pid.lower()}")
     rep, err = core.analyse(mod.check, ROOT, "quick", overlay=overlay)
     if rep is None:
@@ -124,7 +24,7 @@ for pid in only:
         continue
     unlisted, listed = core.split_known(rep)
     print(f"{pid}: {len(unlisted)} unlisted refutation(s), {len(listed)} known")
-    for f in unlisted:
+    for f, _k in unlisted:
         bad += 1
-        print("   ", f.rule, f.module, f.construct, "::", str(f.statement)[:120])
+        print("   ", f.rule, f.module, f.construct, "::", str(f.statement)[:160], "::", f.message[:300])
 sys.exit(1 if bad else 0)
